@@ -358,3 +358,9 @@ func CountKinds(g *ast.Grammar) (counts [18]int, total int) {
 	}
 	return counts, total
 }
+
+// Expected returns the AST that the front-end builds for any text that
+// Print produces from g: a normalised deep copy (see Normalize). For the
+// output of Gen it equals g. PrintPos additionally returns the same AST with
+// the positions of the text it printed.
+func Expected(g *ast.Grammar) *ast.Grammar { return Normalize(Clone(g)) }
